@@ -386,7 +386,9 @@ func c04Serialisation(c *Ctx) {
 				}
 			}
 		}
-		for _, call := range an.CallsIn(fn, func(_ ssa.CallInstruction, ci an.CalleeInfo) bool { return ci.FullName() == "("+pkgGraphql+".Transport).Do" }) {
+		for _, call := range an.CallsIn(fn, func(_ ssa.CallInstruction, ci an.CalleeInfo) bool {
+			return ci.FullName() == "("+pkgGraphql+".Transport).Do"
+		}) {
 			c.R.Check(rec != nil && an.Before(rec, call), "Server.ServeHTTP→Transport.Do", c.ipos(call), "deferred recover registered first", "Transport.Do runs without a previously registered recover: a panic while serialising a response kills the connection without an error body")
 		}
 	}
